@@ -140,7 +140,7 @@ def qualname(f):
 # ------------------------------------------------------------------ results
 
 class Obligation:
-    __slots__ = ('kind', 'label', 'status', 'model', 'seconds', 'backend', 'decisions', 'detail')
+    __slots__ = ('kind', 'label', 'status', 'model', 'seconds', 'backend', 'decisions', 'detail', 'props', 'z3model')
 
     def __init__(self, kind, label):
         self.kind = kind
@@ -151,6 +151,8 @@ class Obligation:
         self.backend = 'z3'
         self.decisions = None
         self.detail = ''
+        self.props = None
+        self.z3model = None
 
 
 class PathResult:
@@ -184,7 +186,7 @@ class Engine:
         self.merge_calls = set(merge_calls or ())
         self.subst = subst or {}                 # id(native object) -> engine value
         self.package = package
-        self.solver = z3.Solver()
+        self.solver = z3.SolverFor('QF_UFBV')
         self.solver.set('timeout', query_timeout_ms)
         self.query_timeout_ms = query_timeout_ms
         self.max_paths = max_paths
@@ -194,6 +196,8 @@ class Engine:
         self.obligations = []
         self._ob_cache = {}
         self._sat_cache = {}
+        self._asserted = []
+        self._models = []
         self.inputs = {}                         # name -> z3 var (current path)
         self.all_inputs = {}                     # name -> z3 var (all paths)
         self.stats = {'paths': 0, 'solver_calls': 0, 'solver_s': 0.0, 'merges': 0, 'merge_fallbacks': 0,
@@ -232,26 +236,88 @@ class Engine:
         return self.register(Obj(cls, attrs, tag))
 
     # ---------------- solver
+    def _sync(self):
+        """bring the incremental solver's assertion stack in line with the current path condition
+        (one push level per conjunct; re-executed prefixes yield identical terms, so they are kept)"""
+        s = self.solver
+        pc = self.path.pc
+        asserted = self._asserted
+        n = 0
+        lim = min(len(pc), len(asserted))
+        while n < lim and asserted[n][0] == pc[n].get_id():
+            n += 1
+        if n < len(asserted):
+            s.pop(len(asserted) - n)
+            del asserted[n:]
+        for c in pc[n:]:
+            s.push()
+            s.add(c)
+            asserted.append((c.get_id(), c))
+
     def _check(self, *extra):
         s = self.solver
         t0 = time.time()
-        s.push()
-        try:
-            s.add(*self.path.pc)
-            s.add(*extra)
+        self._sync()
+        if extra:
+            s.push()
+            try:
+                s.add(*extra)
+                r = s.check()
+                m = s.model() if r == z3.sat else None
+            finally:
+                s.pop()
+        else:
             r = s.check()
             m = s.model() if r == z3.sat else None
-        finally:
-            s.pop()
         self.stats['solver_calls'] += 1
         self.stats['solver_s'] += time.time() - t0
+        if m is not None:
+            self._models.append((tuple(c.get_id() for c in self.path.pc), m))
+            if len(self._models) > 6:
+                del self._models[0]
         return r, m
 
     def feasible(self, cond):
+        key = tuple(c.get_id() for c in self.path.pc) + (cond.get_id(),)
+        hit = self._sat_cache.get(key)
+        if hit is not None:
+            return hit[0]
+        if self._model_says(cond):
+            self._sat_cache[key] = (True, list(self.path.pc), cond)
+            return True
         r, _ = self._check(cond)
         if r == z3.unknown:
             self.undecided_branches += 1
-        return r != z3.unsat
+        res = r != z3.unsat
+        self._sat_cache[key] = (res, list(self.path.pc), cond)     # keep the terms alive so ids stay unique
+        return res
+
+    def _model_says(self, cond):
+        """cheap sat witness: a recent model of the *current* path condition that also satisfies cond"""
+        pc = self.path.pc
+        n = len(pc)
+        for k in range(len(self._models) - 1, -1, -1):
+            ids, m = self._models[k]
+            npc = len(ids)
+            try:
+                if npc > n:
+                    continue
+                if any(ids[i] != pc[i].get_id() for i in range(npc)):
+                    continue
+                # the model was found for pc[:npc] (+ a query); it must also satisfy the later conjuncts
+                ok = True
+                for c in pc[npc:]:
+                    if not z3.is_true(m.eval(c, model_completion=True)):
+                        ok = False
+                        break
+                if ok and self._models_pc_ok(k) and z3.is_true(m.eval(cond, model_completion=True)):
+                    return True
+            except z3.Z3Exception:
+                continue
+        return False
+
+    def _models_pc_ok(self, k):
+        return True
 
     def prove(self, cond):
         cond = z3.simplify(cond)
@@ -259,8 +325,7 @@ class Engine:
             return True
         if z3.is_false(cond):
             return False
-        r, _ = self._check(z3.Not(cond))
-        return r == z3.unsat
+        return not self.feasible(z3.Not(cond))
 
     def assume(self, cond):
         c = zb(cond)
@@ -340,12 +405,28 @@ class Engine:
             elif r == z3.sat:
                 ob.status = 'failed'
                 ob.model = self.model_inputs(m)
+                ob.z3model = m
             else:
                 ob.status = 'undecided'
                 ob.detail += ' solver: %s' % self.solver.reason_unknown()
             self._ob_cache.setdefault(key, []).append((goal, ob))
         ob.seconds = time.time() - t0
         self.obligations.append(ob)
+        return ob
+
+    def oblige_all(self, kind, label, named, detail=''):
+        """conjunction of named conditions; on failure the detail lists the conjuncts false in the model"""
+        conds = [(n, zb(c)) for n, c in named]
+        ob = self.oblige(kind, label, z3.And(*[c for _, c in conds]) if conds else z3.BoolVal(True), detail)
+        if ob.status == 'failed' and ob.z3model is not None and not ob.detail.startswith('violated:'):
+            bad = []
+            for n, c in conds:
+                try:
+                    if z3.is_false(ob.z3model.eval(c, model_completion=True)):
+                        bad.append(n)
+                except z3.Z3Exception:
+                    pass
+            ob.detail = 'violated: ' + ' '.join(bad[:12]) + (' ' + ob.detail if ob.detail else '')
         return ob
 
     def cover(self, label):
@@ -371,6 +452,12 @@ class Engine:
                 out[name] = bool(z3.is_true(v))
             else:
                 out[name] = v.as_long()
+        hook = getattr(self, 'model_hook', None)
+        if hook is not None:
+            try:
+                out.update(hook(m))
+            except Exception as e:      # noqa
+                out['__hook_error__'] = repr(e)
         return out
 
     # ---------------- exploration
@@ -389,6 +476,8 @@ class Engine:
             self.pending = []
             self.heap = []
             self.inputs = {}
+            self._models = []
+            self.model_hook = None
             self.depth = 0
             try:
                 data = thunk(self)
@@ -473,14 +562,13 @@ class Engine:
                     self.restore(snap, env)
                     self.path.pc = pc0 + ([] if z3.is_true(cond) else [cond])
                     self.prefix, self.pos, self.pending = inner, 0, []
-                    if not z3.is_true(cond) and inner == [] and not self.feasible(z3.BoolVal(True)):
-                        continue
                     try:
                         v = thunk()
                         extra = self.path.pc[len(pc0):]
                         normals.append((z3.And(*extra) if extra else z3.BoolVal(True), self.snapshot(env), v))
                     except PyRaise:
-                        excs.append((ai, tuple(self.prefix[:self.pos])))
+                        if self.feasible(z3.BoolVal(True)):
+                            excs.append((ai, tuple(self.prefix[:self.pos])))
                     except PathEnd:
                         pass
                     stack.extend(self.pending)
